@@ -348,11 +348,13 @@ def equilibrated_kkt(u):
     u.ensure(vw.kind == "int" and cw.kind == "int", "weights_are_integers")
 
 
-@unit("C20.create_scaling.dispatch", ["C20", "C04", "C06"], [SC + "create_scaling"], config={"max_paths": 200})
+@unit("C20.create_scaling.dispatch", ["C20", "C04", "C06", "C05"], [SC + "create_scaling"], config={"max_paths": 200})
 def create_scaling_dispatch(u):
     """which scaling is built for which ScalingType, from which data: Nominal from (x_ref, c(x_ref)), GradJac from
     (grad f(x_ref), J(x_ref)), KKT from (H(x_ref, y_ref), J(x_ref)); NoScaling gives None; an explicit scaling object
-    is handed back as it is; Custom without an object and a missing reference point are deliberate ValueErrors"""
+    is handed back as it is; Custom without an object and a missing reference point are deliberate ValueErrors.
+    For C05 this is the exemption clause: while a scaling is set up the user's functions are evaluated at the
+    user-supplied scaling point and NOWHERE else (no library-chosen stand-in point such as the origin)."""
     from pyvc.values import Mat, Opaque
 
     names = ["NoScaling", "Custom", "Nominal", "GradJac", "KKT"]
